@@ -1,4 +1,4 @@
-import TakVerif.Impl.FPA
+import TakVerif.Impl.FPARepair
 import TakVerif.Generated.FactsEval
 import TakVerif.Generated.FactsGlue
 
@@ -14,6 +14,11 @@ searching players: `cmd/internal/playtak/friendly.go` (`Friendly.GetMove`, `wait
 * the FPA rule with its remembered squares,
 * oracles: the searching player's answer, the verdicts of the depth-3 "did the opponent just blunder" engine
   `f.check` (C05 owns what they mean).
+
+`friendlyGetMove` is `Friendly.GetMove` **with** `fixes/C07-fpa-record-notes.diff`: before it judges the newest pair the
+rule is shown the older pairs of the record, oldest first (`entryRule`), and `LegalMove` on a ply-0 position forgets the
+notes of the last game (`legalMoveR`) — the notes are a function of the record.  `friendlyGetMovePinned` is the tree
+before that patch (notes written only by `LegalMove` on the newest pair), kept for the counterexamples.
 
 It returns an `Action`, the branch taken, in the order of the Go code.  Clock effects are part of the action:
 which deadline is put on the search context and which floor (`minThink` / `undoTimeout`) is waited for
@@ -121,10 +126,37 @@ def prevOf (g : GameRec) : R (Pos × Move) :=
     | [] => .error (.panic "Friendly.GetMove: f.g.Moves[len-1]")
   | _ => .error (.panic "Friendly.GetMove: f.g.Positions[len-2]")
 
-/-- the rule check `Friendly.GetMove` starts with, on its own (used to state the theorems):
-`f.fpa.LegalMove(f.g.Positions[len-2], f.g.Moves[len-1])` when `p.MoveNumber() > 0` — the updated remembered
-squares and the verdict; nothing to check at ply 0 -/
+/-- the pairs `(f.g.Positions[i], f.g.Moves[i])`, `i+1 < len(f.g.Moves)`, oldest first, as the rule sees them;
+`Positions[i]` out of range is an index panic -/
+def olderPairs (g : GameRec) : R (List (View × Move)) :=
+  let ps := g.positions.reverse
+  let ms := g.moves.reverse.dropLast
+  if ps.length < ms.length then .error (.panic "Friendly.GetMove: f.g.Positions[i]")
+  else .ok ((ps.zip ms).map fun (p, m) => (viewOfPos p, m))
+
+/-- `for i := 0; i+1 < len(f.g.Moves); i++ { f.fpa.LegalMove(f.g.Positions[i], f.g.Moves[i]) }`: the notes rebuilt
+from the older pairs of the record -/
+def entryRule (var : Variant) (r : Rule) (g : GameRec) : R Rule :=
+  match olderPairs g with
+  | .error e => .error e
+  | .ok h => replay var r h
+
+/-- the rule check `Friendly.GetMove` starts with, on its own (used to state the theorems): when
+`p.MoveNumber() > 0` the older pairs are replayed, then
+`f.fpa.LegalMove(f.g.Positions[len-2], f.g.Moves[len-1])` — the rebuilt notes and the verdict on the newest pair;
+nothing to check at ply 0 -/
 def prevCheck (var : Variant) (r : Rule) (g : GameRec) (p : Pos) : R (Rule × Bool) :=
+  if p.move > 0 then
+    match entryRule var r g with
+    | .error e => .error e
+    | .ok r1 =>
+      match prevOf g with
+      | .ok (q, m) => legalMoveR var r1 (viewOfPos q) m
+      | .error e => .error e
+  else .ok (r, true)
+
+/-- the tree before `fixes/C07-fpa-record-notes.diff`: only the newest pair is shown to the rule -/
+def prevCheckPinned (var : Variant) (r : Rule) (g : GameRec) (p : Pos) : R (Rule × Bool) :=
   if p.move > 0 then
     match prevOf g with
     | .ok (q, m) => legalMove var r (viewOfPos q) m
@@ -139,9 +171,24 @@ def prevViews (g : GameRec) : Option (View × Move) :=
   | .error _ => none
 
 /-- first block of `Friendly.GetMove`:
-`if f.fpa != nil { if p.MoveNumber() > 0 { prevP, prevM := …; if err := f.fpa.LegalMove(prevP, prevM); err != nil { … } } }`.
+`if f.fpa != nil { if p.MoveNumber() > 0 { for … { f.fpa.LegalMove(Positions[i], Moves[i]) }; prevP, prevM := …; if err := f.fpa.LegalMove(prevP, prevM); err != nil { … } } }`.
 Returns the rule with the squares `LegalMove` remembered and, when the move was rejected, the text of the error. -/
 def fpaCheck (fpa : Option (Variant × Rule)) (g : GameRec) (p : Pos) : R (Option (Variant × Rule) × Option Msg) :=
+  match fpa with
+  | none => .ok (none, none)
+  | some (var, r) =>
+    if p.move > 0 then do
+      let r1 ← entryRule var r g
+      let (prevP, prevM) ← prevOf g
+      let (r', ok) ← legalMoveR var r1 (viewOfPos prevP) prevM
+      if ok then .ok (some (var, r'), none)
+      else do
+        let msg ← errMsg var prevP.move
+        .ok (some (var, r'), some msg)
+    else .ok (some (var, r), none)
+
+/-- the same before `fixes/C07-fpa-record-notes.diff` -/
+def fpaCheckPinned (fpa : Option (Variant × Rule)) (g : GameRec) (p : Pos) : R (Option (Variant × Rule) × Option Msg) :=
   match fpa with
   | none => .ok (none, none)
   | some (var, r) =>
@@ -160,12 +207,11 @@ def fpaScript (fpa : Option (Variant × Rule)) (p : Pos) : R (Option Move) :=
   | none => .ok none
   | some (var, r) => getMove var r (viewOfPos p)
 
-/-- `(*Friendly).GetMove(ctx, p, mine, theirs)`.  `fpa`: `f.fpa` (`none` = `nil`) with the rule's remembered
-squares; returns the rule's squares afterwards (`LegalMove` writes them) and the branch taken.  An error is a
-panic of the Go code (index out of range in the record, or a panic inside the rule's own code). -/
-def friendlyGetMove (fpa : Option (Variant × Rule)) (g : GameRec) (p : Pos) (o : CheckOracle) :
+/-- `(*Friendly).GetMove(ctx, p, mine, theirs)` after its first block `check` -/
+def friendlyGetMoveWith (check : Option (Variant × Rule) → GameRec → Pos → R (Option (Variant × Rule) × Option Msg))
+    (fpa : Option (Variant × Rule)) (g : GameRec) (p : Pos) (o : CheckOracle) :
     R (Option (Variant × Rule) × Action) := do
-  let (fpa, rejected) ← fpaCheck fpa g p
+  let (fpa, rejected) ← check fpa g p
   match rejected with
   | some msg =>
     -- f.client.SendCommand(f.g.GameStr, "Resign"); f.client.Tell(f.g.Opponent, err.Error()); <-ctx.Done(); return tak.Move{}
@@ -179,6 +225,16 @@ def friendlyGetMove (fpa : Option (Variant × Rule)) (g : GameRec) (p : Pos) (o 
     -- deadline := time.After(undoTimeout | minThink); ctx with deadline now+maxThink; m := f.ai.GetMove(ctx, p); wait; return m
     let w ← waitUndo g o
     .ok (fpa, .think (some Facts.maxThink) (some (if w then .undo else .minThink)))
+
+/-- `(*Friendly).GetMove(ctx, p, mine, theirs)`.  `fpa`: `f.fpa` (`none` = `nil`) with the rule's remembered
+squares; returns the rule's squares afterwards (`LegalMove` writes them) and the branch taken.  An error is a
+panic of the Go code (index out of range in the record, or a panic inside the rule's own code). -/
+def friendlyGetMove (fpa : Option (Variant × Rule)) (g : GameRec) (p : Pos) (o : CheckOracle) :
+    R (Option (Variant × Rule) × Action) := friendlyGetMoveWith fpaCheck fpa g p o
+
+/-- `(*Friendly).GetMove` before `fixes/C07-fpa-record-notes.diff` -/
+def friendlyGetMovePinned (fpa : Option (Variant × Rule)) (g : GameRec) (p : Pos) (o : CheckOracle) :
+    R (Option (Variant × Rule) × Action) := friendlyGetMoveWith fpaCheckPinned fpa g p o
 
 /-- `(*Friendly).Config(size)` -/
 def friendlyConfig (fpa : Bool) (size : Nat) : Cfg :=
